@@ -371,11 +371,22 @@ func (g *gsDouble) Cancel(ctx context.Context, id graphsync.RequestID) error {
 	g.finish(tok, graphsync.RequestClientCancelledErr{})
 	return nil
 }
+func (g *gsDouble) runBeforeAnswer(id graphsync.RequestID) {
+	g.r.mu.Lock()
+	hook := g.beforeCancel
+	g.beforeCancel = nil
+	g.r.mu.Unlock()
+	if hook != nil {
+		hook(id)
+	}
+}
 func (g *gsDouble) Pause(ctx context.Context, id graphsync.RequestID) error {
+	g.runBeforeAnswer(id)
 	g.record(gsCmd{Kind: "GPause", Rid: g.r.tokOfRid(id)})
 	return nil
 }
 func (g *gsDouble) Unpause(ctx context.Context, id graphsync.RequestID, exts ...graphsync.ExtensionData) error {
+	g.runBeforeAnswer(id)
 	c := gsCmd{Kind: "GUnpause", Rid: g.r.tokOfRid(id)}
 	for _, e := range canonExts(exts) {
 		c.Msgs = append(c.Msgs, e.Msg)
@@ -815,4 +826,13 @@ func (r *trRig) snapshotCoq() (string, string) {
 		rstr = append(rstr, fmt.Sprintf("(%s, %s)", coqN(x.t), x.k.coq()))
 	}
 	return coqList(cstr), coqList(rstr)
+}
+
+// deliverIncomingRequest runs the transport's incoming-request hook directly (used from inside the graphsync
+// double to model a request that graphsync's response goroutine is processing at that moment)
+func (r *trRig) deliverIncomingRequest(p int, ridTok uint64, m *msgSpec) {
+	if h := r.gs.IncomingRequestHook; h != nil {
+		a := &testharness.FakeIncomingRequestHookActions{}
+		h(peerOf(p), testharness.NewFakeRequest(r.rid(ridTok), extsFor(m, extension.ExtensionDataTransfer1_1), graphsync.RequestTypeNew), a)
+	}
 }
